@@ -1,4 +1,5 @@
 """C10 — a command that fails changes nothing."""
+import json
 from .. import common, framework, fndiff, cmdrun, gen, oracles, explore2, crash, strace
 from ..histories import run_history, fieldset, replay_trace, mode_of
 
@@ -138,6 +139,39 @@ def io_faults(ctx, r, prefer_big=False, prop="C10", torn=False, post_oracle=None
         base.close()
 
 
+def rewrites_on_skewed_logs(ctx, r):
+    """`compact` and `plan` (the commands that publish a whole new file) on logs whose stamps are not in line order — a collaborator's lines stamped ahead,
+    then work done here: whatever a command checks about its own result, it either reports success or has changed nothing"""
+    st = cmdrun.Store(ctx.ergo, ctx.go, legacy=r.p(20))
+    trace = []
+    try:
+        def ex(argv, stdin=None, agent="w"):
+            res = st.exec(argv, stdin); trace.append({"argv": argv, "stdin": None if stdin is None else stdin.decode(), "exit": res["exit"]}); return res
+        ids = [json.loads(ex(["--json", "new", "task"], json.dumps({"title": "t%d" % i}).encode())["stdout"])["id"] for i in range(2 + r.n(2))]
+        crash.add_skewed_history(st, r, trace, max_tasks=2)
+        from ..histories import skew_edit
+        skew_edit(st, r, trace)
+        # work done here, with this machine's (earlier) clock: the last state of the task carries an older stamp than lines before it
+        ex(["--json", "--agent", "w", "claim", ids[0]])
+        ex(["--json", "--agent", "w", "set", ids[0]], b'{"state":"done"}')
+        if len(ids) > 2:
+            ex(["--json", "--agent", "w", "set", ids[1]], b'{"title":"retitled here","state":"blocked"}')
+        if r.p(50):
+            ex(["--json", "--agent", "w", "prune", "--yes"])
+        for argv, stdin in ((["--json", "compact"], None), (["--json", "plan"], b'{"title":"P","tasks":[{"title":"a"},{"title":"b","after":["a"]}]}'), (["--json", "compact"], None)):
+            before_bytes, before = st.log_bytes(), st.graph()
+            res = ex(argv, stdin)
+            after_bytes, after = st.log_bytes(), st.graph()
+            ctx.count(1, key=("rewrite on a skewed log", argv[1], res["exit"] == 0))
+            if "err" in after:
+                ctx.violation("C10 store unreadable after %s on a log with stamps out of line order" % argv[1], after["err"][:200], {"trace": trace}); return
+            if res["exit"] != 0 and (after_bytes != before_bytes or ("graph" in before and oracles.obs_graph(before["graph"]) != oracles.obs_graph(after["graph"]))):
+                ctx.violation("C10 %s fails(%s) residue=%s" % (argv[1], cmdrun.classify_stderr(res["stderr"]) or "other", "log-rewritten" if after_bytes != before_bytes else "changed"),
+                              "%s exited %s (%s) but the store changed" % (argv[1], res["exit"], res["stderr"].strip()[:160]), {"trace": trace}); return
+    finally:
+        st.close()
+
+
 def run(ctx):
     from . import c11
     c11.input_tie(ctx, ctx.seed + 1000, 300 if ctx.quick else 20000)
@@ -147,6 +181,8 @@ def run(ctx):
     r = gen.Rng(ctx.seed * 1000003 + 10)
     for h in range(30 if ctx.quick else 500):
         run_history(ctx, r.fork(), 35, WEIGHTS, oracle, gen_fn=gen_fn)
+    for i in range(4 if ctx.quick else 60):
+        rewrites_on_skewed_logs(ctx, r.fork())
     # failure in the presence of another process: A parked before / inside / after its lock section, B holds the lock when A goes on
     for i in range(5 if ctx.quick else 120):
         explore2.explore(ctx, "C10", r.fork(), kindsA=(["claim_id", "set", "set+state", "new+state", "sequence"][i % 5],), kindsB=("new", "set", "claim_oldest"),
